@@ -202,11 +202,19 @@ def _call(o, f, what, *args, **kw):
             warnings.simplefilter('ignore')
             return True, f(*args, **kw)
     except Exception:
-        o.violate('raises', {'call': what, 'traceback': traceback.format_exc()[-1500:]}, _mech_raises(what))
+        tb = traceback.format_exc()[-1500:]
+        o.violate('raises', {'call': what, 'traceback': tb}, _mech_raises(what, tb))
         return False, None
 
 
-def _mech_raises(what):
+def _mech_raises(what, tb):
+    """mechanism key from the witness (the call description and the traceback), for known_findings bookkeeping"""
+    if 'n=0' in what and 'IndexError' in tb and 'sky2ang' in tb:
+        return 'sky-within-empty-input'
+    if 'IORegistryError' in tb and 'write_table' in tb:
+        return 'write-table-no-votable-format'
+    if 'dims=' in what and 'IndexError' in tb and 'mask_plane' in tb:
+        return 'mask-file-squeezes-celestial-axis'
     return None
 
 
